@@ -639,3 +639,44 @@ Theorem frag_table_read_w32_refuted :
     C05.Super.frag_table_read uc img fuel C05.Wrap.w32_fsup = C05.RBase.Err C05.RBase.E_ALLOC.
 Proof. exact C05.Wrap.frag_table_read_w32_refuted_l. Qed.
 Print Assumptions frag_table_read_w32_refuted.
+
+(* ---- strengthening after seed C05-10: the component loop of sqfs_dir_reader_resolve_path (coq/C05/Lookup.v) ----
+   The caller's path is a buffer of exactly strlen+1 bytes ([rdc] = None outside it, answered by LCrash);
+   ent->name = the size+1 stored bytes (NUL allowed) + one terminator.  For every directory content, every path and
+   every fuel the loop as repaired (compare length = strlen of the stored name) never indexes the path outside its
+   buffer, ends within strlen+1 rounds, and a match is an exact match of the component with the C string of the
+   stored name; with the compare length taken from the on-disk size field it leaves the buffer (witness). *)
+From SqfsV Require C05.Lookup.
+Theorem resolve_path_safe :
+  forall d path fuel cur, C05.Lookup.nonul path ->
+  C05.Lookup.resolve C05.Lookup.LenStrlen d path fuel cur 0 <> C05.Lookup.LCrash.
+Proof. exact C05.Lookup.resolve_path_safe_l. Qed.
+Print Assumptions resolve_path_safe.
+Theorem resolve_path_total :
+  forall d path cur, C05.Lookup.nonul path ->
+  C05.Lookup.resolve C05.Lookup.LenStrlen d path (S (length path)) cur 0 <> C05.Lookup.LFuel.
+Proof. exact C05.Lookup.resolve_path_total_l. Qed.
+Print Assumptions resolve_path_total.
+Theorem resolve_path_match_exact :
+  forall ents path off ref off', C05.Lookup.nonul path -> (off <= length path)%nat ->
+  C05.Lookup.scan C05.Lookup.LenStrlen ents path off = Some (Some (ref, off')) ->
+  exists name, In (name, ref) ents /\ off' = (off + C05.Lookup.c_strlen name)%nat /\ (off' <= length path)%nat /\
+    (forall j, (j < C05.Lookup.c_strlen name)%nat -> nth_error name j = nth_error path (off + j)) /\
+    (exists c, C05.Lookup.rdc path off' = Some c /\ (c = 47 \/ c = 0)).
+Proof. exact C05.Lookup.scan_match_exact_l. Qed.
+Print Assumptions resolve_path_match_exact.
+Theorem resolve_path_size_len_refuted :
+  C05.Lookup.nonul [97] /\
+  C05.Lookup.resolve C05.Lookup.LenSize C05.Lookup.wit_dirs [97] 2 0 0 = C05.Lookup.LCrash /\
+  C05.Lookup.resolve C05.Lookup.LenStrlen C05.Lookup.wit_dirs [97] 2 0 0 = C05.Lookup.LOk 1.
+Proof. exact C05.Lookup.resolve_size_len_refuted_l. Qed.
+Print Assumptions resolve_path_size_len_refuted.
+Example resolve_path_ex_nested :
+  C05.Lookup.resolve C05.Lookup.LenStrlen C05.Lookup.wit_dirs [47; 97; 47; 47; 120; 47] 7 0 0 = C05.Lookup.LOk 3.
+Proof. exact C05.Lookup.resolve_ex_nested. Qed.
+Example resolve_path_ex_no_entry :
+  C05.Lookup.resolve C05.Lookup.LenStrlen C05.Lookup.wit_dirs [97; 98; 99] 4 0 0 = C05.Lookup.LErr C05.Lookup.ENoEntry.
+Proof. exact C05.Lookup.resolve_ex_prefix. Qed.
+Example resolve_path_ex_not_dir :
+  C05.Lookup.resolve C05.Lookup.LenStrlen C05.Lookup.wit_dirs [97; 98; 47; 120] 5 0 0 = C05.Lookup.LErr C05.Lookup.ENotDir.
+Proof. exact C05.Lookup.resolve_ex_notdir. Qed.
